@@ -309,7 +309,7 @@ def _filtered(ex, a, count, body_at, deltas_of, extra, loop_id, p):
         z3.ForAll([jj], z3.Implies(z3.And(jj >= 0, jj < count, keep_at(jj)),
                                    z3.And(pos(jj) >= 0, pos(jj) < m, src(pos(jj)) == jj))),
     ])
-    return Lst(n=m, at=lambda i: item_at(src(i)), tag=("filter", src, pos))
+    return Lst(n=m, at=lambda i: item_at(src(i)), tag=("filter", src, pos, m, count, keep_at))
 
 
 class _Rename(ast.NodeTransformer):
@@ -427,7 +427,7 @@ def _filtered_list(ex, elt, g, seq: Lst, p):
         z3.ForAll([jj], z3.Implies(z3.And(jj >= 0, jj < N, keep_at(jj)),
                                    z3.And(pos(jj) >= 0, pos(jj) < m, src(pos(jj)) == jj))),
     ])
-    return Lst(n=m, at=lambda i: item_at(src(i)), tag=("filter", src, pos))
+    return Lst(n=m, at=lambda i: item_at(src(i)), tag=("filter", src, pos, m, N, keep_at))
 
 
 # ----------------------------------------------------------------------------- loops over all index pairs i < j
